@@ -64,13 +64,17 @@ int main() {
     std::vector<El> a = in, b = in;
     bool desc = wl_chance(30);
     auto cmp = [desc](const El& x, const El& y) { return desc ? x.key > y.key : x.key < y.key; };
+    if (n) vsim_hb_watch(a.data(), a.size() * sizeof(El));   // two threads touching one element without ordering = data race, whatever the result
     P::sort(a.begin(), a.end(), cmp);
+    vsim_hb_unwatch_all();
     if (!std::is_sorted(a.begin(), a.end(), cmp)) vsim_fail("c16.sort.order", "ParallelSTL::sort(n=%d, shape=%d, %d threads): result is not sorted", n, shape, nthr);
     if (!same_multiset(a, b)) vsim_fail("c16.sort.permutation", "ParallelSTL::sort(n=%d): result is not a permutation of the input", n);
     break; }
   case 1: {
     std::vector<El> a = in;
+    if (n) vsim_hb_watch(a.data(), a.size() * sizeof(El));
     auto it = P::partition(a.begin(), a.end(), pred);
+    vsim_hb_unwatch_all();
     long pp = it - a.begin();
     long expect = std::count_if(in.begin(), in.end(), pred);
     long bad = 0; for (long i = 0; i < n; i++) if (pred(a[i]) != (i < pp)) bad++;
@@ -102,7 +106,9 @@ int main() {
     break; }
   case 6: {
     std::vector<long> v, out(n), ref(n); for (auto& e : in) v.push_back(e.key % 1000 - 300);
+    if (n) { vsim_hb_watch(v.data(), v.size() * sizeof(long)); vsim_hb_watch(out.data(), out.size() * sizeof(long)); }
     auto r = P::partial_sum(v.begin(), v.end(), out.begin());
+    vsim_hb_unwatch_all();
     std::partial_sum(v.begin(), v.end(), ref.begin());
     if (out != ref) { long k = 0; while (k < n && out[k] == ref[k]) k++; vsim_fail("c16.partial_sum", "partial_sum differs from std::partial_sum at index %ld of %d (%ld vs %ld), %d threads", k, n, out[k], ref[k], nthr); }
     if (r != out.begin() + n) vsim_fail("c16.partial_sum.return", "partial_sum returned an iterator %ld past the start, expected %d", (long)(r - out.begin()), n);
